@@ -221,12 +221,20 @@ def d4_interval_indexing(ctx):
         # ballot assembled by popping the next candidate of the slate named at each position of the type
         lps = [n for n in astx.walk_own(f.node) if isinstance(n, ast.For) and astx.u(n.iter) == "enumerate(bt)"]
         good = False
-        if lps:
+        if not lps:
+            # the ranking grown position by position instead of filled by index:  for b in bt: ranking.append(frozenset({order[b].pop(0)}))
+            lps = [n for n in astx.walk_own(f.node) if isinstance(n, ast.For) and astx.u(n.iter) == "bt" and isinstance(n.target, ast.Name)]
+            if lps:
+                b = lps[0].target.id
+                body = [astx.u(s) for s in lps[0].body]
+                good = body in ([f"ranking.append(frozenset({{cand_ordering_by_bloc[{b}].pop(0)}}))"],
+                                [f"ranking.append(frozenset({{cand_ordering_by_bloc[{b}][0]}}))", f"cand_ordering_by_bloc[{b}].pop(0)"])
+        elif lps:
             body = [astx.u(s) for s in lps[0].body]
             i, b = [astx.u(x) for x in lps[0].target.elts]
             good = body in ([f"ranking[{i}] = frozenset({{cand_ordering_by_bloc[{b}][0]}})", f"cand_ordering_by_bloc[{b}].pop(0)"],
                             [f"ranking[{i}] = frozenset({{cand_ordering_by_bloc[{b}].pop(0)}})"])
-        ctx.check(good, f, lps[0] if lps else f.node, f"{f.short}: position i takes the next unused candidate of the slate the type names", "", "ballot assembly from the type changed")
+        ctx.check_shape(good, f, lps[0] if lps else f.node, f"{f.short}: position i takes the next unused candidate of the slate the type names", "", "ballot assembly from the type changed")
     f = prog.find_func("AlternatingCrossover.generate_profile")
     defs = astx.single_assignments(f.node, names_only=True)
     good = defs.get("pref_interval_dict") == "self.pref_intervals_by_bloc[bloc]" and defs.get("opposing_slate") == "self.blocs[(i + 1) % 2]" \
@@ -348,11 +356,20 @@ def d6_model_parameters(ctx):
         f = prog.find_func(f"{cname}.__init__")
         pm = astx.parents(f.node)
         st = [n for n in astx.walk_own(f.node) if isinstance(n, ast.Assign) and astx.u(n.targets[0]) == "self.pref_interval_by_bloc"]
-        comb = [n for n in st if isinstance(n.value, ast.DictComp)]
+        from vk import listform
+        comb = [n for n in st if isinstance(n.value, ast.DictComp) or (isinstance(n.value, ast.Name) and listform.dict_build_of(f.node, n.value) is not None)]
         good = False
         d = ""
         if len(comb) == 1:
-            dc = comb[0].value
+            # the mapping bloc -> combined interval, as a comprehension or as a fresh dictionary filled in a loop over the blocs
+            db = listform.dict_build_of(f.node, comb[0].value)
+            dc = comb[0].value if isinstance(comb[0].value, ast.DictComp) else None
+            if dc is None and db is not None and len(db.loops) == 1 and not db.conditional:
+                import copy
+                gen = ast.comprehension(target=ast.Name(id=db.loops[0][0], ctx=ast.Store()), iter=db.loops[0][1], ifs=[], is_async=0)
+                dc = ast.fix_missing_locations(ast.DictComp(key=copy.deepcopy(db.key), value=copy.deepcopy(db.value), generators=[gen]))
+            if dc is None:
+                dc = ast.DictComp(key=ast.Constant(value=None), value=ast.Constant(value=None), generators=[ast.comprehension(target=ast.Name(id="_", ctx=ast.Store()), iter=ast.Constant(value=None), ifs=[], is_async=0)])
             bloc = astx.u(dc.key)
             call = dc.value
             if isinstance(call, ast.Call) and astx.call_name(call) == "combine_preference_intervals" and len(call.args) == 2:
